@@ -188,7 +188,9 @@ func c10Scenario(transport string, N, K int, seed uint64, record bool) (res c10R
 			for i := 0; i < K; i++ {
 				id := uint32(s*K + i + 1)
 				p := c10Payload(id, sizes[id])
-				m := qnet.NewMessage(qnet.NewHeader(qnet.Event, uint32(s), uint32(i), c10Action(s, i), id), p)
+				h := qnet.NewHeader(c10Type(id), uint32(s), uint32(i), c10Action(s, i), id)
+				h.Flags = c10Flags(id)
+				m := qnet.NewMessage(h, p)
 				if err := sendEP.Send(m); err != nil {
 					sendErr <- fmt.Errorf("sender %d message %d: %v", s, i, err)
 					return
@@ -213,7 +215,7 @@ func c10Scenario(transport string, N, K int, seed uint64, record bool) (res c10R
 				return fail("message with unknown id %d", id)
 			}
 			s, i := int(id-1)/K, int(id-1)%K
-			if h.Type != qnet.Event || h.Service != uint32(s) || h.Object != uint32(i) || h.Action != c10Action(s, i) || h.Flags != 0 {
+			if h.Type != c10Type(id) || h.Service != uint32(s) || h.Object != uint32(i) || h.Action != c10Action(s, i) || h.Flags != c10Flags(id) {
 				return fail("header of message %d damaged: %v", id, h)
 			}
 			if !bytes.Equal(m.Payload, c10Payload(id, sizes[id])) {
@@ -286,7 +288,7 @@ func c10Scenario(transport string, N, K int, seed uint64, record bool) (res c10R
 			}
 			s, i := int(id-1)/K, int(id-1)%K
 			p := c10Payload(id, sizes[id])
-			h := qnet.Header{Magic: 0x42dead42, ID: id, Size: uint32(len(p)), Version: 0, Type: qnet.Event, Flags: 0,
+			h := qnet.Header{Magic: 0x42dead42, ID: id, Size: uint32(len(p)), Version: 0, Type: c10Type(id), Flags: c10Flags(id),
 				Service: uint32(s), Object: uint32(i), Action: c10Action(s, i)}
 			if !bytes.Equal(w, wireOf(h, p)) {
 				return fail("the Write call of message %d is not its wire form", id)
@@ -530,6 +532,10 @@ wait:
 	}
 	return "valid " + strings.Join(parts, " ")
 }
+
+// every message type and every value of the flags byte travel: a message is intact when all of its header is
+func c10Type(id uint32) uint8  { return uint8(1 + id%8) }
+func c10Flags(id uint32) uint8 { return uint8((id * 37) % 256 * (id % 3)) }
 
 func init() {
 	executors["c10.crowd"] = execC10Crowd
